@@ -116,6 +116,42 @@ def catchup {ρ} (w : MWal ρ) (csHeight : Nat) : Catchup ρ :=
     | none => .nomarker
     | some recs => .replay recs
 
+/-! ### the WAL as a GROUP of files: `BaseWAL.SearchForEndHeight`
+
+The autofile group rotates its head (`wal` → `wal.NNN`; no new head is created until the next
+write). `SearchForEndHeight` opens a group reader at the newest file first, then at each older file
+(a reader opened at file `i` reads file `i` and every newer file), keeps `lastHeightFound` across
+the files, and gives up early when the last marker seen is positive and below the wanted height.
+When a restart finds the head empty or absent, `BaseWAL.OnStart` writes `#ENDHEIGHT 0` into it: the
+newest file then holds ONLY that marker. (`KV/Model/Wal.lean` has the byte-level search; its
+`search_iff` assumes increasing marker heights, which that extra `#ENDHEIGHT 0` breaks.) -/
+
+/-- one reader: `some rest` = marker found, reader positioned after it; otherwise the height of the
+last marker seen (`lastHeightFound`) -/
+def scanFor {ρ} (h : Nat) : MWal ρ → Int → Option (MWal ρ) × Int
+  | [], last => (none, last)
+  | .inr k :: rest, _ => if k == h then (some rest, (k : Int)) else scanFor h rest (k : Int)
+  | .inl _ :: rest, last => scanFor h rest last
+
+/-- the outer loop `for index := max; index >= min; index--`; first numeric argument = index + 1;
+`exit last height` = the early-exit test at end of file -/
+def gsearchLoop {ρ} (exit : Int → Int → Bool) (files : List (MWal ρ)) (h : Nat) :
+    Nat → Int → Option (MWal ρ)
+  | 0, _ => none
+  | i + 1, last =>
+    match scanFor h (files.drop i).flatten last with
+    | (some rest, _) => some rest
+    | (none, last') => if exit last' (h : Int) then none else gsearchLoop exit files h i last'
+
+def gsearch {ρ} (exit : Int → Int → Bool) (files : List (MWal ρ)) (h : Nat) : Option (MWal ρ) :=
+  gsearchLoop exit files h files.length (-1)
+
+/-- the code: `lastHeightFound > 0 && lastHeightFound < height` -/
+def exitGt0 (last height : Int) : Bool := decide (0 < last ∧ last < height)
+
+/-- the seeded change: `lastHeightFound >= 0 && lastHeightFound < height` -/
+def exitGe0 (last height : Int) : Bool := decide (0 ≤ last ∧ last < height)
+
 /-! ## Model 2 -/
 
 inductive Mode where
